@@ -537,7 +537,7 @@ func c18TimeoutWhileWaiting(r *kit.Run, i int, rig *c18Rig, cli *clientv3.Client
 	// quiescent: every waiter call has returned, the holder still holds
 	r.Cover(fmt.Sprintf("%s/holder-%s/waiters%d", cfg, hm, nWaiters))
 	if !c18LocalFree(w) {
-		r.Violation("mutex:failed-lock-left-local-lock-held:"+cfg, detail)
+		r.Violation("mutex:failed-lock-left-local-lock-held:"+cfg, map[string]interface{}{"case": fmt.Sprint(detail)})
 		w.(*mutex).lock.TryLock()
 		w.(*mutex).lock.Unlock()
 	}
@@ -588,7 +588,7 @@ func c18TimeoutInAcquire(r *kit.Run, i int, rig *c18Rig, cli *clientv3.Client, b
 		r.Cover(fmt.Sprintf("%s/%s/%dus", cfg, wm, T.Microseconds()/100*100))
 		detail := map[string]interface{}{"config": cfg, "lock": name, "member": wm, "timeout_us": T.Microseconds(), "lock_error": lerr.Error()}
 		if !c18LocalFree(w) {
-			r.Violation("mutex:failed-lock-left-local-lock-held:"+cfg, detail)
+			r.Violation("mutex:failed-lock-left-local-lock-held:"+cfg, map[string]interface{}{"case": fmt.Sprint(detail)})
 			w.(*mutex).lock.TryLock()
 			w.(*mutex).lock.Unlock()
 		}
@@ -611,6 +611,7 @@ func c18TimeoutInAcquire(r *kit.Run, i int, rig *c18Rig, cli *clientv3.Client, b
 					detail["other_member_lock"] = "acquired"
 					o.Unlock()
 				}
+				o.(*mutex).timeout = 10 * time.Second // the object may be cached by the cluster
 			}
 			r.Violation("mutex:timed-out-lock-left-etcd-key:"+cfg, detail)
 			c18Purge(cli, name)
